@@ -13,11 +13,15 @@ def instances(tier):
         yield 'len3', dict(BASE, max_len=3), 'AlphaC04', None
         yield 'sim8', dict(BASE, max_len=8), 'AlphaC04', 'num=2000'
         # overlaps that lie entirely below / above the image window still have to be rejected
+        yield 'core-len3-verbosity3', dict(BASE, max_len=3, verbose=3), 'AlphaC04core', None
+        yield 'wide-predefined-value-len3', dict(BASE, max_len=3, pre_data_op='DataWide', pre_data=[('pd1', 5, 4660, 2)]), 'AlphaC04core', None
         yield 'window-above-len3', dict(BASE, max_len=3, win_start=9, win_end=12), 'AlphaC04core', None
         yield 'window-below-len3', dict(BASE, max_len=3, win_start=0, win_end=0, fill=7), 'AlphaC04core', None
     else:
         yield 'len5', dict(BASE, max_len=5), 'AlphaC04', None
         yield 'sim10', dict(BASE, max_len=10), 'AlphaC04', 'num=30000'
+        yield 'core-len4-verbosity3', dict(BASE, max_len=4, verbose=3), 'AlphaC04core', None
+        yield 'wide-predefined-value-len4', dict(BASE, max_len=4, pre_data_op='DataWide', pre_data=[('pd1', 5, 4660, 2)]), 'AlphaC04core', None
         yield 'window-above-len4', dict(BASE, max_len=4, win_start=9, win_end=12), 'AlphaC04core', None
         yield 'window-below-len4', dict(BASE, max_len=4, win_start=0, win_end=0, fill=7), 'AlphaC04core', None
         yield 'window-middle-len4', dict(BASE, max_len=4, win_start=3, win_end=4), 'AlphaC04core', None
